@@ -1102,7 +1102,7 @@ def infer_base_unit(
 
     for unit_name, power in original_units.items():
         candidates = registry.parse_unit_name(unit_name)
-        assert len(candidates) == 1
+        # like get_name, take the first reading when a name has several
         _, base_unit, _ = candidates[0]
         d[base_unit] += power
 
